@@ -37,7 +37,8 @@ ASSUMPTIONS = [
     "options sampled per case: damping {0, 0.3, 0.7}, update {sequential, parallel} (HV1BP parallel only), local_convergence, "
     "normalize {default, L1, L2, Linf, L2phased}, strip_exponent, function vs class interface, initial messages default / "
     "uniform / random positive / supplied dictionary (D2BP: random positive definite, also partly supplied); progbar=False; "
-    "diis, custom distance functions, thread pools and non-numpy backends are not covered",
+    "diis=True in ~15% of the value cases (not L2BP), thread_pool=2 in ~30% of the HV1BP class-interface cases; custom distance "
+    "/ normalisation callables, contract_every, power / smudge conditioning of D2BP and non-numpy backends are not covered",
     "a run that the rolling-mean rule ends while the messages still change by >= 1e-6 (single precision 1e-3) is reported under "
     "its own contract ('converged=True is not reported while ...') and not judged for exactness; a rolling-mean stop on a "
     "plateau below that is accepted and judged by the value",
@@ -63,4 +64,4 @@ EXPLANATION = (
     "region-graph-counting-numbers: RegionGraph and gen_region_counts vs intersection closure and Moebius counts. (8) "
     "combine-local-contractions. (9) bp-object-normalisations-and-corrections-on-trees: normalize_message_pairs / "
     "normalize_messages / normalize_tensors / get_normalized_tn, contract_gloop_expand / contract_loop_series_expansion / "
-    "contract_with_loops on loop-free networks.")
+    "contract_with_loops on loop-free networks. (10) zero-valued-trees: every contract_*bp on chains whose exact value / state is 0.")
